@@ -194,6 +194,7 @@ fn project(ex: &Exec, own: &Owners, x: u8) -> (VecDeque<GuideRec>, Vec<Ev>) {
             Ev::Panic => mine_ctx.then_some(Ev::Panic),
             Ev::Stray(a) => mine_ctx.then_some(Ev::Stray(*a)),
             Ev::Defer(s) => r.sub(*s).map(Ev::Defer),
+            Ev::Nested(e) => r.evid(*e).map(Ev::Nested),
         };
         if let Some(e) = e2 {
             keep_idx[i] = true;
@@ -254,7 +255,7 @@ fn project(ex: &Exec, own: &Owners, x: u8) -> (VecDeque<GuideRec>, Vec<Ev>) {
                 Some(p) if p == x => Some(GuideRec { kind: c.kind, what: What::SpawnRes(r.tasks_before(t)), n: c.n, pick: c.pick, menu: c.menu, target: None }),
                 _ => None,
             },
-            What::Sched => None,
+            What::Sched | What::Nested(_) => None,
         };
         if let Some(g) = rec {
             guide.push_back(g);
